@@ -17,7 +17,7 @@
 (***************************************************************************)
 EXTENDS MeshOps, Json
 
-CONSTANTS NSlots, Depth, Ops
+CONSTANTS NSlots, Depth, Ops, Walk
 
 VARIABLES pool, hist,
           noop      \* the last step left the pool unchanged (no result, or the contract says it fails)
@@ -142,7 +142,8 @@ Do(st) ==
 \* Steps that leave the pool unchanged all lead to the same pool: the VIEW keeps them apart by their last step
 \* (otherwise only ONE exporter / scan / failing call per pool state would ever be emitted), and they are not
 \* expanded further (their subtree is the parent's, one step later).
-Next == Len(hist) < Depth /\ ~noop /\ \E st \in Candidates : Do(st)
+\* (a random walk - Walk = TRUE, no VIEW - simply goes on after such a step)
+Next == Len(hist) < Depth /\ (Walk \/ ~noop) /\ \E st \in Candidates : Do(st)
 
 Spec == Init /\ [][Next]_vars
 
